@@ -12,6 +12,12 @@ specific (None plus every name the class offers); the noise model read back must
 exactly the requested name and be usable on its code (probability_distribution does not
 raise).  Two of the error-rate specifications start at a rate of exactly 0.
 
+Part 'eta': every spelling class of one bias ratio (infinite: inf, Inf, infinity, +inf, 1e999 ...; finite:
+3, 3.0, 3e0, +3, ' 3' ...) alone, with finite companions at every list position and paired with the other
+kind, through the same command and oracle; every spelling is a number, so a refusal (non-zero exit, nothing
+written) is a violation, and acceptance must not depend on the list.  Part 'direction-fn':
+get_direction_from_bias_ratio called directly with float/numpy/math infinities and int/float/numpy scalars.
+
 Part 'range': `panqec.cli.read_range_input` on every (min, max, step) of a decimal grid
 (and the comma-list / single-value forms), compared with the exact decimal progression.
 """
@@ -58,6 +64,10 @@ RULE = ('part generate: complete product of (code class, size list, compatible d
         'invocation in its own sandbox plus reading back every file it wrote (each noise model read back is also '
         'evaluated once on its code); non-trivial when the requested grid has more than one point '
         '(sizes*ratios*rates > 1) and at least one file was written; distinct = distinct command line. '
+        'part eta: every spelling of ETA_SPELLINGS alone, with the companions at every position of 2- and 3-lists and '
+        'paired with every spelling of the other kind in both orders, x bias (x method); non-trivial when the list '
+        'holds an infinite or alternatively spelled ratio and was accepted; part direction-fn: every listed scalar x '
+        'bias, non-trivial when the scalar is infinite or not a plain float. '
         'part range: all (min, max, step) with min, max multiples of step, 0 <= min < max <= 0.6, plus comma-list and '
         'single-value forms; one evaluation = one read_range_input call; non-trivial when the binary accumulation '
         'float(min) + n*float(step) does not land exactly on float(max) (the endpoint decision is then rounding '
@@ -107,6 +117,18 @@ SIZES_2D = ['3x3', '3x3,5x5']
 SIZES_3D = ['2x3x4,3x3x3']
 BIASES = ['X', 'Y', 'Z']
 ETAS = ['0.5', '10', 'inf', '0.5,10', '1,3,inf', '2,2.5,30']      # the last: ratios that are close together
+# part 'eta': spellings of one bias ratio.  The value of a spelling is float(spelling) (what the command line
+# documents: a number or inf); every spelling float() maps to +infinity is an infinite ratio.  Every spelling
+# below is such a number, so the command must accept each of them alone (kind bias-ratio-spelling-refused:
+# D23, `--eta 3.0` raised ValueError, fixed in /repo) and a list exactly when it accepts the members.
+ETA_SPELLINGS = {
+    'inf': ['inf', 'Inf', 'INF', 'infinity', 'Infinity', 'INFINITY', '+inf', '+Infinity', '1e999', ' inf', 'inf '],
+    '3': ['3', '3.0', '3e0', '+3', ' 3', '3 ', '03', '3.', '30e-1'],
+    '2.5': ['2.5', '2.50', '+2.5', '25e-1', ' 2.5', '.25e1'],
+}
+ETA_COMPANIONS = ['0.5', '10']         # finite ratios a spelling is listed with, at every list position
+ETA_TRIPLE = ('Toric2DCode', '3x3', 'BeliefPropagationOSDDecoder')
+ETA_PROB = '0.1'
 # single value, lists and ranges; two of them start at an error rate of exactly 0
 PROBS = ['0.1', '0,0.1', '0.05,0.1,0.2', '0.1:0.3:0.1', '0:0.1:0.05']
 # rates on grids finer than 1e-4 (single, list, range): they must come back exactly, not rounded
@@ -176,6 +198,14 @@ QUICK_TRIPLES = [
     ('RhombicPlanarCode', '2x3x4,3x3x3', 'BeliefPropagationOSDDecoder'),
 ]
 BOUNDS['quick']['generate']['triples'] = [list(t) for t in QUICK_TRIPLES]
+for _t in ('quick', 'thorough'):
+    BOUNDS[_t]['eta'] = {'spellings': ETA_SPELLINGS, 'companions': ETA_COMPANIONS, 'triple': list(ETA_TRIPLE),
+                         'prob': ETA_PROB, 'bias': BIASES,
+                         'methods': ['direct'] if _t == 'quick' else METHODS,
+                         'lists': 'alone; with the companions at every position of 2- and 3-element lists; '
+                                  'every (finite spelling, infinite spelling) pair in both orders',
+                         'direct_calls': 'get_direction_from_bias_ratio(bias, v) for v in float/np/math '
+                                         'infinities and int/float/np scalars of 0.5, 3, 10'}
 
 
 # --------------------------------------------------------------------------- case lists
@@ -269,6 +299,11 @@ def cases(tier, seed):
             for first in range(len(_HISTORY_ALPHABET)):
                 hist.append({'part': 'history', 'cls': cls, 'sizes': sizes, 'decoder': dec, 'bias': bias,
                              'first': first})
+    eta_cases = [{'part': 'direction-fn'}]
+    for method in (['direct'] if tier == 'quick' else METHODS):
+        for bias in BIASES:
+            for family in ETA_SPELLINGS:
+                eta_cases.append({'part': 'eta', 'bias': bias, 'family': family, 'method': method})
     rng = _range_cases(steps)
     # simplest first: the coarsest range step, the simplest command lines of either method, then the rest
     head = [c for c in rng if c['step'] == '0.1']
@@ -279,7 +314,7 @@ def cases(tier, seed):
     rest_gen = [c for c in gen if c not in head]
     # slow decoder cases early so that the pool stays balanced
     rest_gen.sort(key=lambda c: 0 if c['decoder'] == 'MemoryBeliefPropagationDecoder' else 1)
-    return head + rest_rng + rest_gen + hist
+    return head + rest_rng + eta_cases + rest_gen + hist
 
 
 # --------------------------------------------------------------------------- oracle helpers
@@ -293,12 +328,25 @@ def _expected_rates(prob):
     return [Decimal(x) for x in prob.split(',')], None
 
 
+def _eta_value(eta):
+    """None for an infinite ratio, else the exact rational value of a bias-ratio spelling; the value of a
+    spelling is its float() value (so 1e999 is infinite), taken exactly from the decimal string when finite."""
+    import math
+    v = float(eta.strip())
+    if math.isinf(v) and v > 0:
+        return None
+    try:
+        return Fraction(eta.strip())
+    except ValueError:
+        return Fraction(v)
+
+
 def _expected_direction(bias, eta):
     """Exact rational (r_x, r_y, r_z) for a bias axis and a bias-ratio string."""
-    if eta.strip() == 'inf':
+    e = _eta_value(eta)
+    if e is None:
         r_b, r_o = Fraction(1), Fraction(0)
     else:
-        e = Fraction(eta.strip())
         r_b, r_o = e / (1 + e), 1 / (2 * (1 + e))
     return tuple(r_b if ax == bias else r_o for ax in 'XYZ')
 
@@ -386,16 +434,26 @@ def _one_invocation(case, eta, prob, label, dim):
 
         # ---- which requested bias ratios have a specification at all
         if unreadable:
+            import math
             present_dirs = []
             for name in files:
                 try:
-                    present_dirs += _raw_directions(os.path.join(input_dir, name))
+                    raw = _raw_directions(os.path.join(input_dir, name))
                 except Exception:
-                    pass
+                    continue
+                present_dirs += raw
+                for rd in raw:
+                    # the written direction itself: finite, sums to 1, matches a requested ratio
+                    vals = [float(x) if isinstance(x, (int, float)) else float('nan') for x in rd]
+                    if (not all(math.isfinite(x) for x in vals) or abs(sum(vals) - 1.0) > 1e-12
+                            or not any(_dir_close(vals, ed) for ed in exp_dirs)):
+                        problems.append(('direction-wrong', {
+                            'file': name, 'written_direction': [repr(x) for x in rd], 'expected_one_of': [
+                                [float(x) for x in ed] for ed in exp_dirs]}))
         else:
             present_dirs = [tuple(s.error_model.direction) for _, s in sims]
         lost = [k for k, ed in enumerate(exp_dirs) if not any(_dir_close(pd, ed) for pd in present_dirs)]
-        n_found = len({tuple(round(float(x), 12) for x in pd) for pd in present_dirs})
+        n_found = len({tuple(repr(round(float(x), 12)) for x in pd) for pd in present_dirs})
         if lost and n_found >= len(eta_list):
             # as many specifications as bias ratios: none was overwritten; a direction that matches no
             # request is judged below (direction-wrong / missing-simulation)
@@ -405,7 +463,7 @@ def _one_invocation(case, eta, prob, label, dim):
                 'message': 'no specification under inputs/ carries the direction of bias ratio(s) %s'
                            % [eta_list[k] for k in lost],
                 'files': files, 'requested': eta_list,
-                'directions_found': sorted({tuple(round(float(x), 6) for x in pd) for pd in present_dirs})}))
+                'directions_found': sorted({tuple(repr(round(float(x), 6)) for x in pd) for pd in present_dirs})}))
         if unreadable:
             return problems, info
 
@@ -679,9 +737,152 @@ def _eval_history(case):
     return res
 
 
+def _eta_lists(family):
+    """[(eta string, [spellings of interest in it])]: alone, with companions at every position, and paired with
+    every spelling of the other kind (finite with infinite) in both orders."""
+    a, b = ETA_COMPANIONS
+    out = []
+    for sp in ETA_SPELLINGS[family]:
+        out.append((sp, [sp]))
+        for lst in ([sp, a], [a, sp], [sp, a, b], [a, sp, b], [a, b, sp]):
+            out.append((','.join(lst), [sp]))
+    others = ETA_SPELLINGS['inf'] if family != 'inf' else ETA_SPELLINGS['3'] + ETA_SPELLINGS['2.5']
+    for sp in ETA_SPELLINGS[family]:
+        for ot in others:
+            out.append(('%s,%s' % (sp, ot), [sp, ot]))
+            out.append(('%s,%s' % (ot, sp), [ot, sp]))
+    return out
+
+
+def _eval_eta(case):
+    res = {'evals': 0, 'nontrivial': 0, 'violations': [], 'samples': [], 'outcomes': [],
+           'extra': {'eta_invocations': 0, 'eta_refused': 0, 'eta_problems_total': 0}}
+    cls, sizes, dec = ETA_TRIPLE
+    sub = {'cls': cls, 'sizes': sizes, 'decoder': dec, 'method': case['method'], 'deformation': None,
+           'bias': case['bias']}
+    dim = 2 if cls in DIM2 else 3
+    accepted_alone = {}
+    outcomes = set()
+    seen = set()
+    emitted = {}
+
+    def emit(kind, eta, spellings, detail):
+        res['extra']['eta_problems_total'] += 1
+        res['extra']['n_' + kind] = res['extra'].get('n_' + kind, 0) + 1
+        if emitted.get(kind, 0) >= 2 or len(res['violations']) >= 5:
+            return
+        emitted[kind] = emitted.get(kind, 0) + 1
+        res['violations'].append({
+            'key': {'part': 'eta', 'kind': kind, 'method': case['method'], 'n_eta': eta.count(',') + 1,
+                    'bias': case['bias'], 'eta': eta, 'spellings': spellings, 'family': case['family'],
+                    'cls': cls, 'sizes': sizes, 'decoder': dec, 'prob': ETA_PROB},
+            'detail': detail})
+
+    # single spellings first (they define what the command accepts), then the lists, shortest first
+    lists = sorted(_eta_lists(case['family']), key=lambda x: (x[0].count(','), 0))
+    singles = {sp for fam in ETA_SPELLINGS.values() for sp in fam}
+    todo = [(sp, [sp]) for sp in sorted(singles) if not any(sp == e for e, _ in lists)] + lists
+    for eta, spellings in todo:
+        problems, info = _one_invocation(sub, eta, ETA_PROB, None, dim)
+        res['evals'] += 1
+        res['extra']['eta_invocations'] += 1
+        refused = (len(problems) == 1 and problems[0][0] == 'generate-fails' and info['files'] == 0)
+        if ',' not in eta:
+            accepted_alone[eta] = not refused
+        members = [e for e in eta.split(',')]
+        # a list is accepted exactly when each member is accepted alone (members alone were run first)
+        should_accept = all(accepted_alone.get(m, True) for m in members)
+        if refused:
+            res['extra']['eta_refused'] += 1
+            outcomes.add('e|refused')
+            if ',' not in eta:
+                # every spelling in the alphabet is a number float() reads as a positive ratio (or +infinity):
+                # the command must write its specification, not refuse it
+                emit('bias-ratio-spelling-refused', eta, spellings, dict(problems[0][1], float_value=repr(float(eta))))
+            if should_accept and ',' in eta:
+                emit('eta-list-refused', eta, spellings, dict(problems[0][1], message=(
+                    'every member is accepted on its own but the list is refused')))
+            continue
+        if not should_accept:
+            emit('eta-list-accepted-with-refused-member', eta, spellings,
+                 {'refused_alone': [m for m in members if not accepted_alone.get(m, True)]})
+        if case['family'] != 'inf' or any(_eta_value(m) is None for m in members):
+            seen.add(eta)
+        outcomes.add('e|f%d|s%d|%s' % (info['files'], info['sims'], ','.join(sorted({k for k, _ in problems})) or 'ok'))
+        by_kind = {}
+        for kind, detail in problems:
+            by_kind.setdefault(kind, []).append(detail)
+        for kind, details in by_kind.items():
+            emit(kind, eta, spellings, dict(details[0], occurrences_in_this_invocation=len(details),
+                                            files=info.get('file_names'), simulations_read=info['sims']))
+    res['nontrivial'] = len(seen)
+    res['samples'].append({'bias': case['bias'], 'family': case['family'],
+                           'accepted_alone': {k: v for k, v in sorted(accepted_alone.items())}})
+    res['outcomes'] = sorted(outcomes)[:50]
+    return res
+
+
+def _eval_direction_fn(case):
+    """get_direction_from_bias_ratio called directly with every kind of scalar a caller may hold."""
+    import math
+    import numpy as np
+    from panqec.utils import get_direction_from_bias_ratio
+    res = {'evals': 0, 'nontrivial': 0, 'violations': [], 'samples': [], 'outcomes': [],
+           'extra': {'direction_fn_calls': 0}}
+    values = [('float(inf)', float('inf'), 'inf'), ('np.inf', np.inf, 'inf'),
+              ('np.float64(inf)', np.float64('inf'), 'inf'), ('math.inf', math.inf, 'inf'),
+              ('np.float32(inf)', np.float32('inf'), 'inf'), ('float(1e999)', float('1e999'), 'inf')]
+    for txt in ('0.5', '3', '10'):
+        v = float(txt)
+        values += [('float(%s)' % txt, v, txt), ('np.float64(%s)' % txt, np.float64(v), txt)]
+        if v % 1 == 0:
+            values += [('int(%s)' % txt, int(v), txt), ('np.int64(%s)' % txt, np.int64(v), txt)]
+    outcomes = set()
+    for bias in BIASES:
+        for name, v, txt in values:
+            exp = _expected_direction(bias, txt)
+            res['evals'] += 1
+            res['extra']['direction_fn_calls'] += 1
+            res['nontrivial'] += int(txt == 'inf' or type(v) is not float)   # not the plain finite float
+            problem = None
+            try:
+                with warnings.catch_warnings():
+                    warnings.simplefilter('ignore')
+                    got = get_direction_from_bias_ratio(bias, v)
+                d = [float(got[k]) for k in ('r_x', 'r_y', 'r_z')]
+                if set(got) != {'r_x', 'r_y', 'r_z'}:
+                    problem = 'keys %s' % sorted(got)
+                elif not all(math.isfinite(x) for x in d):
+                    problem = 'not finite'
+                elif abs(sum(d) - 1.0) > 1e-12:
+                    problem = 'does not sum to 1'
+                elif not _dir_close(d, exp):
+                    problem = 'does not match the bias'
+                outcomes.add('d|%s' % ','.join('%.4g' % x for x in d))
+            except Exception as exc:
+                d = None
+                problem = 'raises %s: %s' % (type(exc).__name__, str(exc)[:120])
+                outcomes.add('d|raises')
+            if problem:
+                res['extra']['n_direction-wrong'] = res['extra'].get('n_direction-wrong', 0) + 1
+                if len(res['violations']) < 5:
+                    res['violations'].append({
+                        'key': {'part': 'direction-fn', 'kind': 'direction-wrong', 'method': None, 'n_eta': 1,
+                                'bias': bias, 'eta': name},
+                        'detail': {'message': problem, 'returned': repr(d),
+                                   'expected': [float(x) for x in exp]}})
+    res['samples'].append({'values': [n for n, _, _ in values]})
+    res['outcomes'] = sorted(outcomes)[:50]
+    return res
+
+
 def eval_case(case):
     if case['part'] == 'history':
         return _eval_history(case)
+    if case['part'] == 'eta':
+        return _eval_eta(case)
+    if case['part'] == 'direction-fn':
+        return _eval_direction_fn(case)
     import warnings
     warnings.filterwarnings('ignore')
     if case['part'] == 'range':
